@@ -13,3 +13,5 @@ Lemma ob_preface_is_rfc : connection_preface = b "PRI * HTTP/2.0" ++ [13;10;13;1
 Proof. vm_compute. reflexivity. Qed.
 Lemma ob_hpack_at_release : hpack_at_release = true.
 Proof. vm_compute. reflexivity. Qed.
+Lemma ob_mitm_deadline_cleared_before_h2 : mitm_deadline_cleared_before_h2 = true.
+Proof. vm_compute. reflexivity. Qed.
